@@ -30,7 +30,7 @@ KINDS = ["3B2", "NP2.1", "NP2.4", "NPultra"]
 
 
 def gen_cases(seed, tier):
-    n = 12 if tier == "quick" else 200
+    n = 12 if tier == "quick" else 600
     cases = [{"cls": "interp", "seed": seed * 1000 + i, "n": 6, "_w": 1} for i in range(n)]
     cases += [{"cls": "detect", "seed": seed * 1000 + i, "n": 2, "_w": 4} for i in range(n)]
     cases += [{"cls": "detect-edge", "seed": seed * 1000 + i, "first": i == 0, "_w": 3} for i in range(max(3, n // 6))]
